@@ -6,6 +6,7 @@
 mod alloc_track;
 mod cpustate;
 mod host;
+mod inputs;
 mod json;
 mod machine;
 mod prng;
